@@ -165,6 +165,20 @@ func Check17(c Case17, r *core.Rec) {
 			return
 		}
 	}
+	// KF-C17-opaque-host-decoding: repeated decoding turns an escaped delimiter inside an opaque host
+	// into a literal one and hands it to the hostname setter, which reads it structurally; whether the
+	// setter then applies depends on credentials / port that later steps remove. Attributed only for
+	// non-special URLs whose fully decoded host contains a forbidden host code point.
+	if c.Profile.decodes() && !u1.IsSpecialScheme() && strings.Contains(u1.Hostname(), "%") {
+		dec := u1.Hostname()
+		for i := 0; i < 8; i++ {
+			dec = string(spec.PercentDecode(dec))
+		}
+		if strings.IndexFunc(dec, spec.IsForbiddenHostCP) >= 0 {
+			r.Known("KF-C17-opaque-host-decoding", "%s: %s -> %s -> %s", c.Profile, quote(x), quote(s1), quote(s2))
+			return
+		}
+	}
 	if onlyQuery && !c.UseRaw && c.Web.hasEmptyName() && c.Profile.experimental() {
 		r.Known("KF-C17-empty-pair", "%s: %s -> %s -> %s", c.Profile, quote(x), quote(s1), quote(s2))
 		return
